@@ -110,3 +110,21 @@ pub fn h_c17_values_kept() {
     }
     reach("C17.values");
 }
+
+// ---- C27: sheet names stay unique ignoring case (also for letters outside ASCII) under rename
+const C27_NAMES: [&str; 7] = ["ÉTÉ", "été", "Été", "New", "sheet3", "SHEET3", "Sheet2"];
+pub fn h_c27_sheet_names_unique_after_rename() {
+    let mut model = model_from_workbook(workbook_with_cells(vec![empty_sheet("été", 1), empty_sheet("Sheet2", 2), empty_sheet("Sheet3", 3)]));
+    let which = any_u32();
+    assume(which < 3);
+    let n = any_usize_to(C27_NAMES.len() - 1);
+    let res = model.rename_sheet_by_index(which, C27_NAMES[n]);
+    let names: Vec<String> = model.workbook.worksheets.iter().map(|w| w.get_name().to_uppercase()).collect();
+    check("C27.sheet_names.unique_ignoring_case", (names.len() == 3) & (names[0] != names[1]) & (names[0] != names[2]) & (names[1] != names[2]));
+    // a rename to the sheet's own name in another case is allowed; a clash with another sheet is refused
+    let old = ["ÉTÉ", "SHEET2", "SHEET3"];
+    let target = C27_NAMES[n].to_uppercase();
+    let clash = ((which != 0) & (target == old[0])) | ((which != 1) & (target == old[1])) | ((which != 2) & (target == old[2]));
+    check("C27.sheet_names.clash_is_refused", !clash | res.is_err());
+    reach("C27.sheet_names");
+}
